@@ -457,7 +457,10 @@ def gen_scale_rat_func(quick: bool) -> List[Method]:
                         sc["hi"] = L(bk[k + 1], "CLOSED" if (last or style == "cc") else "OPEN")
                         scales.append(sc)
                     for p2i in (None, [{"num": [0, 1], "den": [1], "lo": L(0, "CLOSED"), "hi": L(40, "OPEN")},
-                                       {"num": [-40, 2], "den": [1], "lo": L(40, "CLOSED"), "hi": L(None, "INFINITE")}]):
+                                       {"num": [-40, 2], "den": [1], "lo": L(40, "CLOSED"), "hi": L(None, "INFINITE")}],
+                                # the explicit inverse scales share the physical value 40 and disagree there: the first one listed decides
+                                [{"num": [0, 1], "den": [1], "lo": L(0, "CLOSED"), "hi": L(40, "CLOSED")},
+                                 {"num": [-30, 2], "den": [1], "lo": L(40, "CLOSED"), "hi": L(None, "INFINITE")}]):
                         cm: Dict[str, Any] = {"cat": "SCALE-RAT-FUNC", "i2p": scales}
                         if p2i is not None:
                             cm["p2i"] = p2i
